@@ -50,6 +50,11 @@ type Outcome struct {
 	Livelock bool
 	Panic    string
 	Steps    int
+	// Diverged: while replaying the stored prefix the enabled set did not admit the stored choice: the code under check
+	// took its scheduling points in another order than in the execution the prefix was recorded from (Go map iteration
+	// order inside the code, e.g. locking the quotas of a map in iteration order). The execution is abandoned, counted
+	// and never judged; the exploration is then not exhaustive.
+	Diverged bool
 }
 
 type exec struct {
@@ -191,7 +196,8 @@ func (x *exec) run() {
 			if k < len(x.prefix) {
 				choice = x.prefix[k]
 				if choice < 0 || choice >= len(en) {
-					panic(fmt.Sprintf("vsync: schedule diverged: choice %d at point %d but only %d threads enabled", choice, k, len(en)))
+					o.Diverged = true
+					break
 				}
 			}
 			ids := make([]int, len(en))
@@ -262,8 +268,9 @@ type Explorer struct {
 	// scheduling point while no thread runs, and the oracle evaluated at quiescence.
 	Build func() (threads []func(), onPoint func(), check func(o *Outcome))
 
-	Execs  int64
-	Capped string
+	Execs    int64
+	Diverged int64 // executions abandoned because the stored prefix could not be replayed (see Outcome.Diverged)
+	Capped   string
 }
 
 func (e *Explorer) once(prefix []int, trace bool) *Outcome {
@@ -277,14 +284,21 @@ func (e *Explorer) once(prefix []int, trace bool) *Outcome {
 		x.threads = append(x.threads, &thread{id: i, fn: f, resume: make(chan bool), kind: opStart, label: "start"})
 	}
 	x.run()
-	if check != nil {
+	if check != nil && !x.out.Diverged {
 		check(x.out)
 	}
 	return x.out
 }
 
 // Replay executes exactly one schedule (choice list); later points take the non-preempting default.
-func (e *Explorer) Replay(choices []int) *Outcome { return e.once(choices, true) }
+// A recorded schedule that cannot be followed is a hard error here (unlike during exploration, see Outcome.Diverged).
+func (e *Explorer) Replay(choices []int) *Outcome {
+	o := e.once(choices, true)
+	if o.Diverged {
+		panic(fmt.Sprintf("vsync: schedule diverged: the recorded choices %v cannot be followed (after %d points)", choices, len(o.Choices)))
+	}
+	return o
+}
 
 // FreeRunReps > 0 (environment VERIF_FREERUN) switches every Explorer from exploring to the supplementary race pass:
 // the scenario is built and run FreeRunReps times with its threads as free-running goroutines on the real sync
@@ -343,6 +357,10 @@ func (e *Explorer) Run() bool {
 		stack = stack[:len(stack)-1]
 		o := e.once(prefix, false)
 		e.Execs++
+		if o.Diverged {
+			e.Diverged++
+			continue
+		}
 		pre := 0
 		for i := 0; i < len(o.Points); i++ {
 			p := o.Points[i]
@@ -364,6 +382,10 @@ func (e *Explorer) Run() bool {
 				pre++
 			}
 		}
+	}
+	if e.Diverged > 0 {
+		e.Capped = fmt.Sprintf("%d of %d executions abandoned: their stored prefix could not be replayed (the code takes its scheduling points in an order that depends on map iteration)", e.Diverged, e.Execs)
+		return false
 	}
 	return true
 }
